@@ -151,6 +151,7 @@ type JQOpts struct {
 	JCLag     bool  // JobConfig objects are not delivered to the cache before Jobs are created
 	Fifo      bool  // workload profile: one JobConfig at its limit, mostly Enqueue Jobs, no edits (order-sensitive interleavings)
 	JobsFirst bool  // on a restart the Job informer lists (and its handlers run) before the JobConfig informer has listed
+	StatusLag bool  // workload profile for the jobconfigcontroller: its own status writes reach the JobConfig cache late, Jobs finish unstarted or leave early
 	MaxJobs   int
 }
 
@@ -763,7 +764,7 @@ func (q *JQ) Enabled(rng *rand.Rand, maxTime int, faultP float64, applied bool) 
 			_, adm := jobutil.GetAdmissionErrorMessage(j)
 			if jobutil.IsStarted(j) || adm || j.DeletionTimestamp != nil {
 				add(Label{A: "Finish", J: i}, 2)
-			} else if rng.Intn(10) == 0 {
+			} else if rng.Intn(10) == 0 || (q.O.StatusLag && rng.Intn(3) == 0) {
 				add(Label{A: "Finish", J: i}, 1)
 			}
 		}
@@ -786,7 +787,7 @@ func (q *JQ) Enabled(rng *rand.Rand, maxTime int, faultP float64, applied bool) 
 		if j.DeletionTimestamp == nil && rng.Intn(12) == 0 {
 			add(Label{A: "UserDelete", J: i}, 1)
 		}
-		if (j.DeletionTimestamp != nil && rng.Intn(3) == 0) || rng.Intn(40) == 0 {
+		if (j.DeletionTimestamp != nil && rng.Intn(3) == 0) || rng.Intn(40) == 0 || (q.O.StatusLag && rng.Intn(6) == 0) {
 			add(Label{A: "Remove", J: i}, 1)
 		}
 	}
@@ -799,7 +800,7 @@ func (q *JQ) Enabled(rng *rand.Rand, maxTime int, faultP float64, applied bool) 
 	if w.Inf.Jobs.Backlog(q.storeH) > 0 {
 		add(Label{A: "StoreDeliver"}, 3)
 	}
-	if w.Inf.JobConfigs.Pending() > 0 {
+	if w.Inf.JobConfigs.Pending() > 0 && !(q.O.StatusLag && rng.Intn(4) != 0) {
 		add(Label{A: "JCDeliver"}, 3)
 	}
 	fault := func() string {
